@@ -200,3 +200,15 @@ def execute(case, monitors=(), prefix=(), horizon=None, light=True,
     seams._CUR["probe"] = None
     seams.set_hash_order(None)
     return run
+
+
+def prelude(payload):
+    """Run the payload's case once and discard the result (used to reproduce
+    violations that only occur after an earlier simulation in the process)."""
+    case = {k: v for k, v in payload["case"].items() if k != "pauses"}
+    try:
+        execute(case, (), tuple(payload.get("prefix", ()) or ()),
+                payload.get("horizon") or 400,
+                payload.get("light", True) is not False, False)
+    except HarnessError:
+        pass
